@@ -557,7 +557,7 @@ func runC18(r *Run, stratum string) *Violation {
 								continue
 							}
 							for _, c2 := range us.cmds {
-								if string(c2[0]) == string(c[0]) && argsEqual(c2[1:], c[1:]) {
+								if strings.EqualFold(string(c2[0]), string(c[0])) && argsEqual(c2[1:], c[1:]) { // the generator varies the case of command names
 									dup = true
 								}
 							}
